@@ -96,8 +96,22 @@ def o_load(inp):
     try:
         mf.save(path)
         try:
-            loaded = Sequence.sequences_load(file_path=path, track_indices=groups, meta_track_indices=meta_idx,
-                                             target_meta_track_index=target)
+            if inp.get("earlier"):
+                # the same opened MidiFile object is converted more than once (the documented `midi_file=` argument): the earlier
+                # conversions, with other roles for the tracks, are part of the replayable input; the last one is judged
+                from scoda.midi.midi_file import MidiFile
+                opened = MidiFile.open(path)
+                for e in inp["earlier"]:
+                    try:
+                        Sequence.sequences_load(midi_file=opened, track_indices=[list(g) for g in e["groups"]],
+                                                meta_track_indices=list(e["meta"]), target_meta_track_index=e["target"])
+                    except Exception:
+                        pass
+                loaded = Sequence.sequences_load(midi_file=opened, track_indices=groups, meta_track_indices=meta_idx,
+                                                 target_meta_track_index=target)
+            else:
+                loaded = Sequence.sequences_load(file_path=path, track_indices=groups, meta_track_indices=meta_idx,
+                                                 target_meta_track_index=target)
         except ValueError as e:
             err = e
         except Exception as e:
@@ -316,6 +330,15 @@ def generate(ctx):
             ctx.count("bad-target")
         inp = {"ppq": ppq, "target": target, "tracks": tracks, "groups": groups, "meta": meta}
         ctx.check("load", inp)
+        if i % 3 == 0 and len(tracks) >= 2:
+            # one opened file, loaded repeatedly with different roles for its tracks
+            nt = len(tracks)
+            earlier = []
+            for _ in range(rng.randint(1, 2)):
+                g2 = [[j] for j in rng.sample(range(nt), rng.randint(1, nt))]
+                earlier.append({"groups": g2, "meta": rng.sample(range(nt), rng.randint(1, nt)), "target": 0})
+            ctx.count("opened-file-converted-again")
+            ctx.check("load", dict(inp, earlier=earlier))
         # exact .5 ties: the code's accumulated doubles and the model's exact rationals may round differently there
         # (and only there), so those files are judged by the oracle alone (it accepts both neighbours)
         tie = False
